@@ -72,6 +72,10 @@ def configs(tier, seed):
                      slow_ops=['load-step'], d=3, dd=1, menu=MENU))
     cfgs.append(dict(backend='redis', backoff='r10', n=1, prestored=2, prestored_due=10.0, keep_announcements=False, script=[E0],
                      redis_yields=['hget'], d=3, dd=1, menu=MENU))
+    # a key prefix of the operator's choosing (constructor argument): start-up load must still find the stored messages
+    for pre in ('outq-', 'a:b:', ''):
+        cfgs.append(dict(backend='redis', redis_prefix=pre, backoff='r10', n=1, prestored=2, prestored_due=10.0, keep_announcements=False,
+                         script=[E0], d=1, dd=1, menu=MENU))
     # restart over several due messages with a bounded store pool: the scheduler blocks in the middle of a dispatch pass
     # while retry bookkeeping of earlier messages re-enters the timetable
     cfgs.append(dict(backend='disk', backoff='r0x2', n=1, messages=0, prestored=4, prestored_due=0.0, store_pool=1, slow_ops=['load-step', 'get'],
